@@ -38,6 +38,7 @@ class BinarySearchTreeAdapted1D(Sampling):
     def __init__(self, model: LevyModel, grid: CTMCGrid, intensity_of_jumps: float):
         super().__init__()
         self.model = model
+        self.grid = grid
         self.axis = grid.axes[0]
         self.uniform = Uniform()
 
@@ -55,12 +56,21 @@ class BinarySearchTreeAdapted1D(Sampling):
     def _compute_probability(self, a, b):
         return self.model.mass(a, b) / self.intensity_of_jumps
 
+    @lru_cache(maxsize=2**18)
+    def _cell_boundary(self, k: int) -> float:
+        """boundary, as defined by the grid, between the cells of the (k-1)-th and the k-th states"""
+        axis = self.axis
+        if k <= 0:
+            return axis[0]
+        if k >= len(axis):
+            return axis[-1]
+        return self.grid.middle(axis[k - 1], axis[k])
+
     def sample(self, size: int = 1) -> np.array:
         res = [self.sample_with_u(u) for u in self.uniform.sample(size=size)]
         return res
 
     def sample_with_u(self, u: float):
-        axis = self.axis
         left, right = self._coordinates_left_axis
         current_p = u
         if u > self._proba_left_axis:
@@ -70,9 +80,7 @@ class BinarySearchTreeAdapted1D(Sampling):
         while left != right:
             middle = (left + right) // 2
             l, r = left, middle  # choose left interval by default
-            a, b = 0.5 * (axis[max(0, l - 1)] + axis[l]), 0.5 * (
-                axis[r] + axis[min(len(axis) - 1, r + 1)]
-            )
+            a, b = self._cell_boundary(l), self._cell_boundary(r + 1)
             p = self._compute_probability(a, b)
 
             if current_p > p:
